@@ -135,6 +135,8 @@ type Node struct {
 	Exited  bool
 	// Pending: transactions the node itself broadcast and the driver has collected ("autotx"); a block lists them as "pending"
 	Pending []string
+	// sessionParams: height -> {claim submission window, blocks per session} as committed at that height
+	sessionParams map[int64][2]int64
 }
 
 type curBlock struct {
@@ -415,6 +417,10 @@ func (n *Node) EndAndCommit() (upd []ValUpd, appHash []byte) {
 		panic(err)
 	}
 	n.TotalTxs += int64(len(n.cur.txs))
+	if n.sessionParams == nil {
+		n.sessionParams = map[int64][2]int64{}
+	}
+	n.sessionParams[h] = [2]int64{n.paramInt("pocketcore/ClaimSubmissionWindow"), n.paramInt("pos/BlocksPerSession")}
 	n.Vals[h+2] = applyUpdates(n.Vals[h+1], eb.ValidatorUpdates)
 	for _, u := range eb.ValidatorUpdates {
 		upd = append(upd, ValUpd{PubKey: hex.EncodeToString(u.PubKey.Data), Power: u.Power})
